@@ -397,6 +397,11 @@ TwinC(e, pre, post) ==
      \* C14: the same history with every settings argument spelled differently gives the same value
      Cl("C14.history_same_settings", HasStyle(pre[e.a.b[1]]), EquivVal(pre[e.a.a[1]], pre[e.a.b[1]]))
   \o Cl("C14.history_same_rendering", HasStyle(pre[e.a.b[1]]), pre[e.a.a[1]].q = pre[e.a.b[1]].q)
+  ELSE IF e.tag = "again" THEN
+     \* C08: a result is independent of its sources and of EARLIER results of the same call: converting the same
+     \* arguments again, after the first result (a = snapshot copy of it taken at once) was mutated, gives the same value
+     Cl("C08.same_call_same_value", HasStyle(pre[e.a.a[1]]) \/ HasStyle(pre[e.a.b[1]]), EquivVal(pre[e.a.a[1]], pre[e.a.b[1]]))
+  \o Cl("C08.same_call_same_rendering", HasStyle(pre[e.a.a[1]]) \/ HasStyle(pre[e.a.b[1]]), pre[e.a.a[1]].q = pre[e.a.b[1]].q)
   ELSE
      Cl("C13.twin_count", TRUE, Len(e.a.a) = Len(e.a.b))
   \o IF Len(e.a.a) # Len(e.a.b) THEN None ELSE
